@@ -27,6 +27,12 @@ CHECKS['C01'] = ('model_checking',
     'Tree shapes, operators and spellings are selector variables (solver-driven concretisation, bounded exhaustive); regexes run concretely; depth <= 3 operators; operand values outside (C02). Known finding C01-sign-run excluded by spelling predicate. ' + TB,
     'DESIGN.md §3 C01')
 
+CHECKS['C20'] = ('model_checking',
+    'concolic symbolic execution of the real date/time/base-conversion functions on z3 proxies (LIA, QF_BV, QF_BVFP; z3 + cvc5), CrossHair for ROMAN/ARABIC',
+    'Bounded symbolic checking of the real functions: every serial 0..2958465 converts to the date Excel shows and DATE returns it; DATE month/day roll-over equals Excel calendar arithmetic for bounded month/day offsets; WEEKDAY steps by one per day in all 10 modes over all serials; HOUR/MINUTE/SECOND invert TIME for every second of the checked hours (IEEE-754 doubles, bit-precise); DEC2BIN/OCT/HEX and inverses are mutually inverse on the whole domain with #NUM! outside; ROMAN/ARABIC round trip over the selector range.',
+    'datetime/calendar shim (validated, injectivity proved), abstract numerals for bin/oct/hex, float->int guard < 2^62; quick tier: 8 of 24 hours, ROMAN n <= 447; cross conversions through schedula outside. Known finding C20-date-rollover-feb1900 excluded by predicate. ' + TB,
+    'DESIGN.md §3 C20')
+
 NA = {
     'C15': 'the dependency closure is computed over openpyxl worksheets read from .xlsx files while mutating the schedula dispatcher; neither can be given a symbolic state (DESIGN §4)',
     'C16': 'placement is done by openpyxl range iteration zipped with np.ravel and compared by re-reading files: I/O and third-party C code, no encodable kernel (DESIGN §4)',
